@@ -322,4 +322,147 @@ theorem dedup_reverse (l : List Pt) : dedup l.reverse = (dedup l).reverse := by
     rw [List.getLast?_reverse, dedup_head?]
     by_cases h : l.head? = some x <;> simp [h]
 
+/-! ### what a node look-up sees after each step (for the mod-2 rule) -/
+
+/-- the effect of `insert_boundary_point` on the `on` position of its node -/
+def toggle (o : Option Pos) : Option Pos := some (if o = some .onBoundary then .inside else .onBoundary)
+
+def toggleN : Nat → Option Pos → Option Pos
+  | 0, o => o
+  | n + 1, o => toggleN n (toggle o)
+
+theorem onPos_labelAt (idx : Nat) (c : Pt) (G : Graph) : (labelAt c G.nodes).onPos idx = G.nodeOn idx c := by
+  unfold labelAt Graph.nodeOn
+  cases findNode c G.nodes with
+  | none => exact onPos_emptyLine idx
+  | some n => rfl
+
+theorem onPos_boundaryUpdate (idx : Nat) (l : Label) : (boundaryUpdate idx l).onPos idx = toggle (l.onPos idx) := by
+  unfold boundaryUpdate toggle determineBoundary
+  rw [onPos_setOn]
+  by_cases h : l.onPos idx = some .onBoundary <;> simp [h]
+
+theorem nodeOn_insertBoundaryPoint (idx : Nat) (c p : Pt) (G : Graph) :
+    (insertBoundaryPoint idx c G).nodeOn idx p = if c = p then toggle (G.nodeOn idx p) else G.nodeOn idx p := by
+  unfold insertBoundaryPoint
+  show (match findNode p (upsertNode c (boundaryUpdate idx) G.nodes) with
+        | some n => n.label.onPos idx | none => none) = _
+  rw [findNode_upsert]
+  by_cases h : c = p
+  · subst h; simp only [if_true]; rw [onPos_boundaryUpdate, onPos_labelAt]
+  · simp only [h, if_false]; rfl
+
+theorem nodeOn_insertPoint (idx : Nat) (c p : Pt) (q : Pos) (G : Graph) :
+    (insertPoint idx c q G).nodeOn idx p = if c = p then some q else G.nodeOn idx p := by
+  unfold insertPoint
+  show (match findNode p (upsertNode c (fun l => l.setOn idx q) G.nodes) with
+        | some n => n.label.onPos idx | none => none) = _
+  rw [findNode_upsert]
+  by_cases h : c = p
+  · subst h; simp only [if_true]; rw [onPos_setOn]
+  · simp only [h, if_false]; rfl
+
+theorem nodeOn_insertEdge (idx : Nat) (e : Edge) (p : Pt) (G : Graph) :
+    (insertEdge e G).nodeOn idx p = G.nodeOn idx p := rfl
+
+theorem toggleN_add (a b : Nat) (o : Option Pos) : toggleN (a + b) o = toggleN b (toggleN a o) := by
+  induction a generalizing o with
+  | zero => simp [toggleN]
+  | succ a ih => rw [Nat.succ_add]; simp only [toggleN]; exact ih _
+
+theorem toggleN_some (n : Nat) :
+    toggleN n (some .inside) = (if n % 2 = 1 then some .onBoundary else some .inside) ∧
+    toggleN n (some .onBoundary) = (if n % 2 = 1 then some .inside else some .onBoundary) := by
+  induction n with
+  | zero => simp [toggleN]
+  | succ n ih =>
+    have t1 : toggle (some Pos.inside) = some .onBoundary := rfl
+    have t2 : toggle (some Pos.onBoundary) = some .inside := rfl
+    simp only [toggleN, t1, t2, ih.1, ih.2]
+    rcases Nat.mod_two_eq_zero_or_one n with h | h
+    · have h' : (n + 1) % 2 = 1 := by omega
+      simp [h, h']
+    · have h' : (n + 1) % 2 = 0 := by omega
+      simp [h, h']
+
+theorem toggleN_none (n : Nat) :
+    toggleN n none = if n = 0 then none else if n % 2 = 1 then some .onBoundary else some .inside := by
+  cases n with
+  | zero => rfl
+  | succ n =>
+    have t : toggle none = some .onBoundary := rfl
+    simp only [toggleN, t, (toggleN_some n).2]
+    rcases Nat.mod_two_eq_zero_or_one n with h | h
+    · have h' : (n + 1) % 2 = 1 := by omega
+      simp [h, h']
+    · have h' : (n + 1) % 2 = 0 := by omega
+      simp [h, h']
+
+theorem nodeOn_addLineString (idx : Nat) (l : List Pt) (p : Pt) (G : Graph)
+    (h : collapsesTo p l = false) :
+    (addLineString idx l G).nodeOn idx p = toggleN (endpointCount1 p l) (G.nodeOn idx p) := by
+  unfold addLineString endpointCount1
+  unfold collapsesTo at h
+  cases hd : dedup l with
+  | nil => rfl
+  | cons first rest =>
+    cases rest with
+    | nil =>
+      have hne : ¬ first = p := by
+        intro e; rw [hd, e] at h; simp at h
+      simp only [addPoint, nodeOn_insertPoint, hne, if_false]; rfl
+    | cons second rest' =>
+      simp only [nodeOn_insertEdge, nodeOn_insertBoundaryPoint]
+      generalize (first :: second :: rest').getLast?.getD first = last
+      by_cases h1 : first = p <;> by_cases h2 : last = p <;>
+        simp only [h1, h2, if_true, if_false] <;> rfl
+
+theorem nodeOn_addLineString_collapsed (idx : Nat) (l : List Pt) (p : Pt) (G : Graph)
+    (h : collapsesTo p l = true) :
+    (addLineString idx l G).nodeOn idx p = some .inside := by
+  unfold addLineString
+  unfold collapsesTo at h
+  have hd : dedup l = [p] := by simpa using h
+  rw [hd]
+  simp only [addPoint, nodeOn_insertPoint, if_true]
+
+theorem nodeOn_addLineStrings (idx : Nat) (ls : List (List Pt)) (p : Pt) (G : Graph)
+    (h : ∀ l ∈ ls, collapsesTo p l = false) :
+    (addLineStrings idx ls G).nodeOn idx p = toggleN (endpointCount p ls) (G.nodeOn idx p) := by
+  induction ls generalizing G with
+  | nil => rfl
+  | cons l ls ih =>
+    simp only [addLineStrings, endpointCount]
+    rw [ih _ (fun l' hl' => h l' (List.mem_cons_of_mem _ hl')), toggleN_add,
+      nodeOn_addLineString idx l p G (h l List.mem_cons_self)]
+
+theorem addLineStrings_append (idx : Nat) (xs ys : List (List Pt)) (G : Graph) :
+    addLineStrings idx (xs ++ ys) G = addLineStrings idx ys (addLineStrings idx xs G) := by
+  induction xs generalizing G with
+  | nil => rfl
+  | cons x xs ih => simp only [List.cons_append, addLineStrings]; exact ih _
+
+theorem addLineString_empty (idx : Nat) (G : Graph) : addLineString idx [] G = G := rfl
+
+theorem addLineStrings_allEmpty (idx : Nat) (ls : List (List Pt)) (G : Graph)
+    (h : ls.all List.isEmpty = true) : addLineStrings idx ls G = G := by
+  induction ls generalizing G with
+  | nil => rfl
+  | cons l ls ih =>
+    simp only [List.all_cons, Bool.and_eq_true] at h
+    have hl : l = [] := by simpa using h.1
+    subst hl
+    simp only [addLineStrings, addLineString_empty]
+    exact ih G h.2
+
+/-- the `is_empty` shortcut of `add_geometry` changes nothing for a `MultiLineString` -/
+theorem addGeometry_multiLineString (idx : Nat) (ls : List (List Pt)) (G : Graph) :
+    addGeometry idx (.multiLineString ls) G = addLineStrings idx ls G := by
+  simp only [addGeometry]
+  split
+  · rename_i h; exact (addLineStrings_allEmpty idx ls G h).symm
+  · rfl
+
+theorem nodeOn_empty (idx : Nat) (p : Pt) : Graph.empty.nodeOn idx p = none := rfl
+
 end Geo.Proofs.C17L
